@@ -498,6 +498,20 @@ def r5_reset(prog, rep: Report, sf: StorageFacts):
         elif fld in sf.shared_values:
             init_arg = init.args[1] if isinstance(init, ast.Call) and len(init.args) > 1 else None
             good = init_arg is not None and const_value(val, "x") == const_value(init_arg, "y")
+            if not good and init_arg is not None and not isinstance(init_arg, ast.Constant):
+                # a value derived from another field (`Value('q', len(self._index))`): the reset must be that expression over the
+                # *reset* value of the other field
+                dep = None
+                if isinstance(init_arg, ast.Call) and src(init_arg.func) == "len" and len(init_arg.args) == 1:
+                    dd = dotted(init_arg.args[0])
+                    if dd and len(dd) == 2 and dd[0] == sn and dd[1] in resets and isinstance(resets[dd[1]], ast.List):
+                        dep = len(resets[dd[1]].elts)
+                if dep is not None:
+                    good = const_value(val, "x") == dep
+                else:
+                    rep.unrec("C14.R5", f, f"reset:{fld}", f"self.{fld} is initialised from `{src(init_arg)}`: what it must be reset to is "
+                              "not a constant this rule can read")
+                    continue
         else:
             good = ast.dump(val) == ast.dump(init)
         rep.check("C14.R5", f, f"reset:{fld}", good, f"self.{fld} reset to its initial value",
@@ -635,7 +649,35 @@ def r7_reader(prog, rep: Report, sf: StorageFacts):
             return r != neg
         return a
     def _assumed(d):
-        return any(assume_for(w)(d) is not None for w in ("beyond-eq", "none", "present"))
+        if any(assume_for(w)(d) is not None for w in ("beyond-eq", "none", "present")):
+            return True
+        # a comparison of the id with the number of stored texts (`len(self)`, the stored counter): that number says nothing about
+        # whether *this* id is stored (ids arrive with gaps and out of order), so both outcomes are possible in every world: a path
+        # through such a test is a real path, not one the rule failed to decide
+        t = d
+        while isinstance(t, tuple) and t[:1] == ("not",):
+            t = t[1]
+        if isinstance(t, tuple) and t[:1] == ("cmp",) and len(t) == 4:
+            sides = [strip_versions(t[2]), strip_versions(t[3])]
+            cnt = [("call", "len", (("self",),)), ("mcall", "__len__", ("self",), ()), ("attr", ("attr", ("self",), sf.count), "value")]
+            if gid in sides and any(x in cnt for x in sides):
+                return True
+        return False
+    def _hinges(p_) -> bool:
+        """the path passes a test *about the id or its index entry* that no world decides (a comparison of the id with a cached
+        length, say): its outcome is then not known to be possible in the world at hand.  Tests about anything else (is the file
+        open, which writer) do not bear on presence."""
+        for d, _ in p_.decisions:
+            if _assumed(d):
+                continue
+            t = d
+            while isinstance(t, tuple) and t[:1] == ("not",):
+                t = t[1]
+            if isinstance(t, tuple) and t[:1] == ("cmp",) and len(t) == 4:
+                sides = [strip_versions(t[2]), strip_versions(t[3])]
+                if gid in sides or any(is_entry(x) for x in sides):
+                    return True
+        return False
     verdict = {"guards": [], "offset-roles": []}
     for world in ("beyond-eq", "beyond-gt", "none", "present"):
         ps, un = summaries(prog, f, sf.cls, assume=assume_for(world))
@@ -647,8 +689,9 @@ def r7_reader(prog, rep: Report, sf: StorageFacts):
             seeks = [e for e in p_.events if e[0] == "call" and e[1] == "seek"]
             if world in ("beyond-eq", "beyond-gt", "none"):
                 beyond = world != "none"
+                hinges = _hinges(p_)
                 if reads:
-                    verdict["guards"].append(("viol", "the file is read on a path where " +
+                    verdict["guards"].append(("unrec" if hinges else "viol", "the file is read on a path where " +
                                               ("the id lies beyond the index" if beyond else "the index entry may be None")))
                 elif p_.exit == "raise:IndexError":
                     verdict["guards"].append(("ok", ""))
@@ -663,7 +706,9 @@ def r7_reader(prog, rep: Report, sf: StorageFacts):
             # present
             if p_.exit != "return":
                 if p_.exit == "raise:IndexError" and not reads:
-                    verdict["guards"].append(("viol", "IndexError is raised for an id whose entry is present"))
+                    hinges = _hinges(p_)
+                    verdict["guards"].append(("unrec" if hinges else "viol", "IndexError is raised for an id whose entry is present"
+                                              + (" (on a path that hinges on a test this rule does not decide)" if hinges else "")))
                 continue
             if not reads:
                 verdict["guards"].append(("unrec", "a path returns without reading the file"))
